@@ -757,7 +757,10 @@ class CorrelatedFieldMaker:
         corr = reduce(mul, a)
         xi = Variable(hspace, self._prefix + 'xi')
         if np.isscalar(self.azm):
-            op = ht(corr.real * xi)
+            # The normalized amplitudes are divided by the zero-mode unless it
+            # is disabled
+            azm = self.azm if self.azm != 0 else 1.
+            op = ht((azm * corr).real * xi)
         else:
             expander = ContractionOperator(hspace, spaces=spaces).adjoint
             azm = expander @ self.azm
@@ -872,7 +875,7 @@ class CorrelatedFieldMaker:
         normal_amp = self.get_normalized_amplitudes()[0]
 
         if np.isscalar(self.azm):
-            na = normal_amp
+            na = normal_amp if self.azm in (0, 1) else normal_amp.scale(self.azm)
         else:
             space = len(normal_amp.target) - 1
             na = normal_amp * self.azm.broadcast(space, normal_amp.target[space])
